@@ -1,4 +1,5 @@
 #include <string>
+#include <type_traits>
 #include <utility>
 #include <vector>
 
@@ -24,7 +25,12 @@ constexpr std::pair<IntT, IntT> reduce_fraction(IntT a, IntT b) {
 
 template <typename IntT>
 constexpr IntT log2i(IntT v) {
-  return (sizeof(IntT) << 3) - 1 - __builtin_clz(v);
+  // __builtin_clz always operates on unsigned int, whatever the width of IntT
+  if constexpr (sizeof(IntT) > sizeof(unsigned int)) {
+    return (sizeof(unsigned long long) << 3) - 1 - __builtin_clzll(v);
+  } else {
+    return (sizeof(unsigned int) << 3) - 1 - __builtin_clz(static_cast<std::make_unsigned_t<IntT>>(v));
+  }
 }
 
 } // namespace phosg
